@@ -181,6 +181,12 @@ def task(W, payload):
         b = ops[:i + 1] + [new] + ops[i + 1:]
         ops, ops1 = a, b
     elif variant == "shift":
+        # always at least one cumulative output that starts strictly inside the time span
+        t0_, dt_, ns_ = Fr(prog["meta"]["t0"]), Fr(prog["meta"]["dt"]), int(prog["meta"]["nsteps"])
+        if ns_ >= 2:
+            extra = [{"op": "request", "name": "sh_tot", "kind": "comp", "comps": [ops[0]["comps"][0]], "save": True},
+                     {"op": "request", "name": "sh_cum", "kind": "cum", "source": "sh_tot", "start": q(t0_ + r.randint(1, ns_ - 1) * dt_), "save": True}]
+            ops += extra; ops1 += copy.deepcopy(extra)
         delta = r.choice([Fr(5), Fr(-3), Fr(7, 2), Fr(100)])
         starts = [Fr(op["start"]) for op in ops if op["op"] == "request" and op["kind"] == "cum" and op.get("start") is not None]
         if starts and r.random() < 0.6:
